@@ -52,16 +52,28 @@ psf_fread (void *ptr, sf_count_t bytes, sf_count_t items, SF_PRIVATE *psf)
 	total = items * bytes ;
 	if (total <= 0 || bytes <= 0)
 		return 0 ;
-	avail = f->len - f->pos ;
-	if (avail < 0)
-		avail = 0 ;
-	n = total < avail ? total : avail ;
+	if (f->pos >= 0 && f->pos + total <= f->len_min)
+		n = total ;		/* entirely inside the part of the file known to exist */
+	else
+	{	avail = f->len - f->pos ;
+		if (avail < 0)
+			avail = 0 ;
+		n = total < avail ? total : avail ;
+		} ;
 #ifdef MF_FAULTY
 	n = mf_fault_count (n) ;
 #endif
-	for (i = 0 ; i < MF_MAXIO ; i++)
+	/* bounded by the request (concrete for header I/O) and by MF_MAXIO (symbolic requests) */
+	for (i = 0 ; i < total && i < MF_MAXIO ; i++)
 	{	if (i >= n)
 			break ;
+#ifdef MF_ABSTRACT
+		if (f->pos + i >= MF_CAP)
+		{	unsigned char nd_abs = nondet_uchar () ;	/* abstract data region: content unknown */
+			dst [i] = nd_abs ;
+			}
+		else
+#endif
 		dst [i] = f->data [f->pos + i] ;
 		} ;
 	VASSERT (n <= MF_MAXIO, "memfile: read request within MF_MAXIO (harness bound)") ;
@@ -81,22 +93,32 @@ psf_fwrite (const void *ptr, sf_count_t bytes, sf_count_t items, SF_PRIVATE *psf
 	total = items * bytes ;
 	if (total <= 0 || bytes <= 0)
 		return 0 ;
+#ifdef MF_ABSTRACT
+	room = total ;		/* positions >= MF_CAP belong to the abstract data region: accepted, not stored */
+#else
 	room = MF_CAP - f->pos ;
+#endif
 	if (room < 0)
 		room = 0 ;
 	n = total < room ? total : room ;
 #ifdef MF_FAULTY
 	n = mf_fault_count (n) ;
 #endif
-	for (i = 0 ; i < MF_MAXIO ; i++)
+	/* bounded by the request (concrete for header I/O) and by MF_MAXIO (symbolic requests) */
+	for (i = 0 ; i < total && i < MF_MAXIO ; i++)
 	{	if (i >= n)
 			break ;
+#ifdef MF_ABSTRACT
+		if (f->pos + i < MF_CAP)
+#endif
 		f->data [f->pos + i] = src [i] ;
 		} ;
 	VASSERT (n <= MF_MAXIO, "memfile: write request within MF_MAXIO (harness bound)") ;
 	f->pos += n ;
 	if (f->pos > f->len)
 		f->len = f->pos ;
+	if (f->pos > f->len_min)
+		f->len_min = f->pos ;
 	if (psf->is_pipe)
 		psf->pipeoffset += n ;
 	return n / bytes ;
@@ -162,8 +184,10 @@ psf_ftruncate (SF_PRIVATE *psf, sf_count_t len)
 	f->n_trunc ++ ;
 	if (len < 0)
 		return -1 ;
+#ifndef MF_ABSTRACT
 	if (len > MF_CAP)
 		return -1 ;
+#endif
 	/* POSIX: extension zero-fills */
 	if (len > f->len)
 	{	sf_count_t i ;
@@ -172,6 +196,8 @@ psf_ftruncate (SF_PRIVATE *psf, sf_count_t len)
 				f->data [i] = 0 ;
 		} ;
 	f->len = len ;
+	if (f->len_min > len)
+		f->len_min = len ;
 	return 0 ;
 }
 
